@@ -202,6 +202,23 @@ def check(chk):
         okt = len(defs_) == 1 and src(_sem.resolve(rf, defs_[0].value)) in ("row.get('tokens', None)", "row.get('tokens')") and \
             all(fa.knows('partitioner') is True and fa.knows(vname) is True and fa.knows('self._token_meta_enabled') is True for fa, _c in fl.at(tm_[0])) and bool(list(fl.at(tm_[0])))
     chk.judge(okt, 'C42.rebuild', lp, 'peer tokens collected per host when a partitioner is known, the row has tokens and token metadata is enabled', 'token collection changed')
+    # removal: a known host is dropped exactly when its endpoint is not among the endpoints found; nothing in the guard may identify hosts by IP address alone
+    chk.rule('C42.removal', 'the guard of remove_host(old_host) is `old_host.endpoint not in found_hosts`; any further conjunct compares whole endpoints, never bare addresses of two hosts')
+    rms = [n for n in ast.walk(rf) if isinstance(n, ast.If) and any(isinstance(x, ast.Call) and src(x.func) == 'self._cluster.remove_host' for st_ in n.body for x in ast.walk(st_))]
+    if not rms:
+        raise AnalysisError('_refresh_node_list_and_token_map: guard of remove_host not found')
+    from ..core import parent as _par42
+    atoms_ = []
+    g_ = rms[0]
+    while isinstance(g_, ast.If):
+        t_ = g_.test
+        atoms_ += list(t_.values) if isinstance(t_, ast.BoolOp) and isinstance(t_.op, ast.And) else [t_]
+        g_ = _par42(g_)
+    has_member = any(src(a_) == 'old_host.endpoint not in found_hosts' for a_ in atoms_)
+    by_addr = [src(a_) for a_ in atoms_ if isinstance(a_, ast.Compare) and len(a_.ops) == 1 and src(a_.left).endswith('.address') and src(a_.comparators[0]).endswith('.address')]
+    chk.judge(has_member and not by_addr, 'C42.removal', rms[0], 'a host is removed when its endpoint is not among those found (%s)' % ' and '.join(src(a_) for a_ in atoms_)[:120],
+              'the removal guard compares bare addresses (%s): a node that shares the control node\'s IP on another port (peers_v2, port-mapped or local clusters) is never removed when it '
+              'leaves the ring - it stays in the metadata and the policies and is not announced again when it returns' % by_addr if by_addr else 'the removal guard no longer tests membership in found_hosts')
     # location
     ul_ = cl.func('ControlConnection._update_location_info')
     pass
